@@ -133,7 +133,7 @@ func checkC15(w *World, r *Report) {
 	r.Rule("KV-AGREE", "import keys each record by its own fields", 4)
 	r.Rule("GEN-VALID-END", "genesis validation checks schedules against the end time they were agreed for", 1)
 	r.Rule("GEN-PARAMS", "export/import change a Params field only to normalise that same field's nil slice", 4)
-	r.Rule("GEN-VALID-POS", "stored-record validators demand positivity only of fields whose writers guarantee it", 4)
+	r.Rule("GEN-VALID-POS", "stored-record validators demand positivity only of fields whose writers guarantee it", 3)
 
 	tm := NewTerms(w)
 	initM, exportM := w.genesisFns()
